@@ -106,6 +106,8 @@ Covering(o) == Len(CoverIdx(o))
 SortedSeq(S) == SortSeq(SetToSeq(S), LAMBDA a, b : a < b)
 Zero == [p \in Par |-> 0]
 
+\* no successors are computed for states at the last level (instead of computing and discarding them)
+LevelOK      == TLCGet("level") < MaxLevel
 Ok(a)        == err' = "" /\ act' = a
 Refused(e,a) == err' = e /\ act' = a
 
@@ -172,6 +174,7 @@ Rec == bad' = Violated
 
 (* ---------- scopes ---------- *)
 EnterK(r, K) ==
+    /\ LevelOK
     /\ "Enter" \in Acts /\ r \in live /\ Len(frames) < MaxDepth
     /\ \A o \in Under(r) : ~ro[o]
     /\ \E U \in {Under(r)} : \E C \in {{cls[o] : o \in Under(r)}} :   \* (singleton \E: evaluated once)
@@ -199,6 +202,7 @@ KeptNow(o, K)  == IF HasBk(cass[o]) THEN Kept(o, K) ELSE {}
 DiffNow(o, K)  == {p \in KeptNow(o, K) : val[o][p] # Head(cbak[o]).val[p]}
 
 Exit ==
+    /\ LevelOK
     /\ "Exit" \in Acts /\ frames # <<>>
     /\ \E F \in {frames[Len(frames)]} : \E U \in {Under(frames[Len(frames)].root)} :
        \E C \in {{cls[o] : o \in U}} : \E diff \in {[o \in U |-> DiffNow(o, F.keep)]} :
@@ -225,6 +229,7 @@ Exit ==
 
 (* ---------- assignments ---------- *)
 AssignV(o, p, v) ==
+    /\ LevelOK
     /\ "Assign" \in Acts /\ o \in live /\ ~ro[o] /\ p \in ParOf[cls[o]]
     /\ val'  = [val EXCEPT ![o][p] = v]
     /\ cass' = [cass EXCEPT ![o] = ALL]
@@ -235,6 +240,7 @@ AssignV(o, p, v) ==
 Assign(o, p, v) == v \in Val /\ AssignV(o, p, v)
 
 AssignROV(o, p, v) ==
+    /\ LevelOK
     /\ "AssignRO" \in Acts /\ o \in live /\ ro[o] /\ p \in ParOf[cls[o]]
     /\ UNCHANGED vars
     /\ Refused("RuntimeError", [n |-> "AssignRO", o |-> o, p |-> p, v |-> v])
@@ -255,6 +261,7 @@ Havoc(o, T, nval, nrest, ncass, ncache, nmcache) ==
 
 (* ---------- caches and grids ---------- *)
 SetCacheV(o, w, tag) ==
+    /\ LevelOK
     /\ "SetCache" \in Acts /\ o \in live /\ w \in {"obj", "mat"} /\ (w = "mat" => HasMat(o))
     /\ cache'  = IF w = "obj" THEN [cache EXCEPT ![o] = tag] ELSE cache
     /\ mcache' = IF w = "mat" THEN [mcache EXCEPT ![o] = tag] ELSE mcache
@@ -267,6 +274,7 @@ SetCache(o, w) ==
     /\ \E tag \in {1 + Covering(o)} : (IF w = "obj" THEN cache[o] ELSE mcache[o]) # tag /\ SetCacheV(o, w, tag)
 
 SetGridV(o, g) ==
+    /\ LevelOK
     /\ "SetGrid" \in Acts /\ o \in live /\ HasGrid(o) /\ ~ro[o]
     /\ grid' = [grid EXCEPT ![o] = g]
     /\ UNCHANGED <<tree, pvars, cvars, gbak, frames, ro, svars>>
@@ -277,6 +285,7 @@ SetGrid(o, g) == g \in 0..(NGrid - 1) /\ o \in live /\ g # grid[o] /\ SetGridV(o
 (* ---------- copies ---------- *)
 FreeIds == Node \ live
 Copy(o, how) ==
+    /\ LevelOK
     /\ how \in Acts /\ o \in live /\ Cardinality(Under(o)) <= Cardinality(FreeIds)
     /\ \E src \in {SortedSeq(Under(o))} : \E free \in {SortedSeq(FreeIds)} :
        LET k    == Len(src)
@@ -304,6 +313,7 @@ Copy(o, how) ==
 
 (* ---------- read-only ---------- *)
 MakeReadOnly(r) ==
+    /\ LevelOK
     /\ "MakeReadOnly" \in Acts /\ r \in live /\ parent[r] = 0 /\ frames = <<>>
     /\ \E o \in Under(r) : ~ro[o]
     /\ ro' = [o \in Node |-> ro[o] \/ o \in Under(r)]
